@@ -115,6 +115,7 @@ SRC_RAW = {
     "C09": ["SrcLayout", "SrcObserve", "SrcObs", "SrcRowVocab"],
     "C11": ["SrcAct"],
     "C12": ["SrcAct"],
+    "C20": ["SrcBound"],
 }
 for _pid, _mods in SRC_RAW.items():
     PROPS[_pid]["src"] = PROPS[_pid].get("src", []) + _mods
